@@ -63,12 +63,25 @@ func (e *Engine) BuildVC(fn *ssa.Function, prop string) (vc *VC, err error) {
 	return vc, nil
 }
 
-func (vc *VC) safetyProps() []string {
+func (vc *VC) safetyProps(kind string) []string {
 	fc := vc.eng.contractOf(vc.fn)
-	if fc != nil && fc.NoPanic {
-		return fc.NoPanicProps
+	if fc == nil {
+		return nil
 	}
-	return nil
+	var out []string
+	if fc.NoPanic {
+		out = append(out, fc.NoPanicProps...)
+	}
+	for _, p := range fc.NoPanicKinds[kind] {
+		dup := false
+		for _, q := range out {
+			dup = dup || p == q
+		}
+		if !dup {
+			out = append(out, p)
+		}
+	}
+	return out
 }
 
 func (vc *VC) lockProps() []string {
@@ -273,35 +286,18 @@ func (vc *VC) runTop() {
 // anything that can panic: in the entry block, before the first call/go/send/panic, there is a
 // Defer of a closure whose contract says `recovers`, and the function has named results.
 func recoverGuardOK(e *Engine, fn *ssa.Function) (bool, string) {
-	if len(fn.Blocks) == 0 {
-		return false, "no body"
+	cf, _, why := firstDeferred(fn)
+	if cf == nil {
+		return false, why
 	}
-	for _, in := range fn.Blocks[0].Instrs {
-		switch i := in.(type) {
-		case *ssa.Alloc, *ssa.MakeClosure, *ssa.DebugRef, *ssa.Store, *ssa.FieldAddr, *ssa.UnOp:
-			continue
-		case *ssa.Defer:
-			mc, ok := i.Call.Value.(*ssa.MakeClosure)
-			if !ok {
-				return false, "first defer is not a closure"
-			}
-			cf, _ := mc.Fn.(*ssa.Function)
-			if cf == nil {
-				return false, "first defer is not a closure"
-			}
-			fc := e.contractOf(cf)
-			if fc == nil || !fc.Recovers {
-				return false, "the deferred closure " + relFuncName(cf) + " has no `recovers` contract"
-			}
-			if fn.Recover == nil {
-				return false, "function has no recover block (named results required)"
-			}
-			return true, "ok: " + relFuncName(cf)
-		default:
-			return false, fmt.Sprintf("instruction %T precedes the recovering defer", in)
-		}
+	fc := e.contractOf(cf)
+	if fc == nil || !fc.Recovers {
+		return false, "the deferred function " + relFuncName(cf) + " has no `recovers` contract and none can be implied (it must capture, or be handed the address of, the named error result)"
 	}
-	return false, "no defer in the entry block"
+	if fn.Recover == nil {
+		return false, "function has no recover block (named results required)"
+	}
+	return true, "ok: " + relFuncName(cf)
 }
 
 func (vc *VC) allProps(fc *FuncContract) []string {
@@ -314,6 +310,11 @@ func (vc *VC) allProps(fc *FuncContract) []string {
 	}
 	for _, p := range fc.NoPanicProps {
 		m[p] = true
+	}
+	for _, ps := range fc.NoPanicKinds {
+		for _, p := range ps {
+			m[p] = true
+		}
 	}
 	for _, c := range fc.Ensures {
 		for _, p := range c.Props {
